@@ -104,12 +104,15 @@ def trade_accounting(tr, market, phase):
             trades = by_ctx.get(lookup, {})
             tr.counters["rule_recount"] += 1
             placed = {tid: t for tid, (t, os_) in trades.items() if id(t) in tr.placed_trades}
-            if any(t.pending_orders or id(t) in tr.reused_complete_trades for t in placed.values()):
+            if any(t.pending_orders for t in placed.values()):
                 continue
             live = [t for tid, (t, os_) in trades.items() if id(t) in tr.placed_trades and any(not o.complete for o in t.orders if o.status is not None)]
             causes = "+".join(sorted({O.cause_of(tr.tags, tr.okey(o)) for tid, (t, os_) in trades.items() for o in os_} - {"-"})) or "-"
             if ctx.live_trade_count != len(live):
-                tr.violate("C10", "live-trade-count-differs", {"cause": causes, "direction": "leak" if ctx.live_trade_count > len(live) else "under"}, strategy=st.name, lookup=lookup, ctx=ctx.live_trade_count, recount=len(live), tick=tr.tick, phase=phase)
+                # mechanism tag: a further order was placed in a trade that had completed, and that order completed (voided with its
+                # runner, lapsed at a suspension) before its placement was executed - the trade still reads COMPLETE
+                reused = any(id(t) in tr.reused_complete_trades and t.status.name == "COMPLETE" and t.id in ctx.live_trades and all(o.complete for o in t.orders if o.status is not None) and any(o.complete and not o.bet_id and sname(o.status) == "EXECUTION_COMPLETE" for o in t.orders) for t in placed.values())
+                tr.violate("C10", "live-trade-count-differs", {"cause": causes, "direction": "leak" if ctx.live_trade_count > len(live) else "under", "reused": "completed-before-executed" if reused else "-"}, strategy=st.name, lookup=lookup, ctx=ctx.live_trade_count, recount=len(live), tick=tr.tick, phase=phase)
             if ctx.trade_count != len(placed):
                 tr.violate("C10", "trade-count-differs", {"cause": causes}, strategy=st.name, lookup=lookup, ctx=ctx.trade_count, recount=len(placed), tick=tr.tick)
             for tid, (t, os_) in trades.items():
@@ -119,7 +122,10 @@ def trade_accounting(tr, market, phase):
                 placed_orders = [o for o in t.orders if o.status is not None]
                 all_complete = all(o.complete for o in placed_orders)
                 tk = tr.tkey(t)
-                if t.status.name == "COMPLETE" and not all_complete:
+                # (a further order placed in a trade that had completed brings the trade back to life when that order is executed;
+                # until then - the request is on its way - the trade still reads COMPLETE)
+                revived_in_flight = id(t) in tr.reused_complete_trades and all(o.complete or sname(o.status) == "PENDING" for o in placed_orders)
+                if t.status.name == "COMPLETE" and not all_complete and not revived_in_flight:
                     tr.violate("C10", "trade-complete-with-live-order", {"cause": causes}, trade=tk, tick=tr.tick, statuses=[sname(o.status) for o in t.orders])
                 if t.status.name == "LIVE" and all_complete and placed_orders and len(placed_orders) == len(t.orders):
                     tr.violate("C10", "trade-live-with-all-orders-complete", {"cause": causes, "statuses": ",".join(sorted({sname(o.status) for o in t.orders}))}, trade=tk, tick=tr.tick)
